@@ -259,6 +259,43 @@ fn check_case(c: &Case, tier: Tier, acc: &Acc, l: &mut Local) {
             }
         }
     }
+    // residue: what was compiled before on the same thread must not change the report.  Each prior
+    // is compiled on a fresh OS thread with its construct on the line of the failing one, then the
+    // case runs on that thread; the full location (every chain entry, lines and ranges) must equal the
+    // one obtained on a fresh thread without a prior
+    {
+        let on_fresh_thread = |prior: Option<String>, c: &Case| -> Result<Option<Loc>, String> {
+            let c = Case { family: c.family, name: c.name.clone(), templates: c.templates.clone(), main: c.main.clone(), target: c.target.clone(), expect_line: c.expect_line };
+            std::thread::spawn(move || {
+                if let Some(p) = prior {
+                    let _ = catch(|| {
+                        let env = Environment::new();
+                        let _ = env.template_from_str(&p).map(|t| t.render(minijinja::context! { xs => vec![1, 2] }).ok());
+                        let _ = env.compile_expression("ns.a if b else [c, {'d': e}]|f(g=h)");
+                    });
+                }
+                run_case(&c).map(|r| r.map(|(e, _)| loc_of(&e)))
+            })
+            .join()
+            .unwrap_or_else(|_| Err("thread died".into()))
+        };
+        if let Ok(Some(clean)) = on_fresh_thread(None, c) {
+            let line = clean.entries.iter().filter_map(|e| e.line).next().unwrap_or(1);
+            for (pname, stmt) in PRIORS {
+                l.evals += 1;
+                let prior = format!("{}{}", "\n".repeat(line.saturating_sub(1)), stmt);
+                match on_fresh_thread(Some(prior.clone()), c) {
+                    Ok(Some(loc)) if loc == clean => {}
+                    other => acc.fail(Failure {
+                        key: format!("location depends_on_earlier_compilation family={} prior={}", c.family, pname),
+                        case: format!("{} after {}", c.name, pname),
+                        detail: format!("on a fresh thread {:?}; after compiling {:?} on the same thread {:?}", clean, prior, other),
+                        replay: json!({"templates": c.templates, "main": c.main, "prior": prior}),
+                    }),
+                }
+            }
+        }
+    }
     // horizontal offsets: a prefix on the first line of the target template
     for (hp, hname) in [("abc", "h3"), ("é☃", "h_multibyte"), (&*"a".repeat(70_000), "h70000")] {
         let c2 = shifted(c, "", 0, hp);
@@ -372,11 +409,31 @@ fn syntax_cases(tier: Tier) -> Vec<Case> {
     out
 }
 
+/// templates compiled before a case on the same thread (one per statement kind, plus ones that fail
+/// to compile half way): the compiler's thread-local scratch pools must come back clean
+const PRIORS: &[(&str, &str)] = &[
+    ("set_namespace_attr", "{% set ns = namespace() %}{% set ns.a = 1 %}{% set ns.b = ns.a %}"),
+    ("set_unpack", "{% set a, (b, c) = 1, (2, 3) %}{% set d %}x{% endset %}"),
+    ("for_else", "{% for i, j in xs|map('list') if i %}{{ loop.index }}{% else %}e{% endfor %}"),
+    ("macro_call", "{% macro m(a, b=1) %}{{ a }}{{ caller() if caller }}{% endmacro %}{{ m(1) }}{% call(q) m(2) %}{{ q }}{% endcall %}"),
+    ("with_filter_autoescape", "{% with a = 1, b = 2 %}{% filter upper|trim %}{% autoescape 'html' %}{{ a }}{% endautoescape %}{% endfilter %}{% endwith %}"),
+    ("if_chain", "{% if a.b %}b{% elif c[0] %}d{% else %}{{ 1 if x }}{% endif %}"),
+    ("blocks", "{% block b %}{{ super() if false }}{% block inner %}{% endblock %}{% endblock %}{{ self.b() }}"),
+    ("include_import", "{% include ['nope'] ignore missing %}{% if false %}{% from 'nope' import y %}{% import 'nope' as n %}{% extends 'nope' %}{% endif %}"),
+    ("expression_zoo", "{{ a.b[c](d, *e, **f)|g(h=i) is j(k) and not l or m ~ n in o }}{{ [1, (2, 3), {'k': -p ** 2}] }}"),
+    ("fails_in_expression", "{% set ns.a = 1 + %}"),
+    ("fails_in_nested_blocks", "{% for i in xs %}{% with a = 1 %}{% set ns.b = i %}{% if %}"),
+    ("fails_unclosed", "{% macro m() %}{% set ns.c = 1 %}{% for i in xs %}"),
+];
+
 fn runtime_cases() -> Vec<Case> {
     let faults = [
         "{{ 1|nofilter }}", "{{ 1 is notest }}", "{{ nofunc() }}", "{{ 1 // 0 }}", "{{ xs|join(1, 2, 3, 4) }}", "{% for a, b in [1] %}{% endfor %}", "{% include 'missing' %}",
         "{{ 'é☃' + 1 }}", "{{ undefined_var }}", "{{ xs.nope.deeper }}", "{{ range(10, 0, 0) }}", "{{ xs[1:2:0] }}", "{% set a, b = 1 %}", "{{ x() }}", "{{ 'é' ~ (1 // 0) ~ 'é' }}",
         "{% if undefined_var %}{% endif %}", "{{ xs|map('nofilter')|list }}", "{{ dict(1) }}", "{% do nofunc() %}", "{% import 'missing' as m %}", "{{ 1 is divisibleby }}",
+        // faults raised by instructions that carry no span of their own
+        "{% autoescape 'bogus' %}x{% endautoescape %}", "{% set q = not undefined_var %}", "{% set q = 1 if undefined_var %}", "{% for i in undefined_var %}{% endfor %}",
+        "{% with a = undefined_var.x %}{% endwith %}", "{% set q = xs|sort(attribute=undefined_var.y) %}",
     ];
     // wrappers: (label, templates with {F} on a line of its own, main, target)
     let wrappers: Vec<(&str, Vec<(&str, &str)>, &str, &str)> = vec![
@@ -464,7 +521,7 @@ pub fn main(args: Args) -> i32 {
             level: "exploration",
             tier: args.tier,
             seed: args.seed,
-            rule: "syntax errors: a corpus of 29 hand-written templates covering every tag and literal form plus every 13th depth-1 generator program, truncated at every character boundary (also with multi-byte text in front) and with 12 stray tokens inserted at every (quick: every other) boundary, plus 37 classic faults; run-time errors: 21 failing constructs x 26 placements (plain, for, if/else, with, macro, call block, set block, filter block, autoescape, child block, parent block, super, include, include in loop, imported macro, import top level, recursive loop, three-level inheritance, and after multi-line string literals / tags / comments / raw blocks / CRLF lines) with the expected template and line computed from the placement; every failing case is re-run with 1/17/65 533 (thorough also 2) filler lines above (LF and CRLF) and with 3-byte, multi-byte and 70 000-byte prefixes; oracle: located name+line inside the named source for the error and every located cause, kind/detail/name unchanged and line shifted by exactly N, ranges in bounds, on char boundaries, equal to the named template's source and shifted by the inserted byte count, all five formatting forms succeed. distinct non-trivial = distinct failing template sets".into(),
+            rule: "syntax errors: a corpus of 29 hand-written templates covering every tag and literal form plus every 13th depth-1 generator program, truncated at every character boundary (also with multi-byte text in front) and with 12 stray tokens inserted at every (quick: every other) boundary, plus 37 classic faults; run-time errors: 27 failing constructs (six of them raised by instructions without a span of their own) x 26 placements (plain, for, if/else, with, macro, call block, set block, filter block, autoescape, child block, parent block, super, include, include in loop, imported macro, import top level, recursive loop, three-level inheritance, and after multi-line string literals / tags / comments / raw blocks / CRLF lines) with the expected template and line computed from the placement; every failing case is re-run with 1/17/65 533 (thorough also 2) filler lines above (LF and CRLF) and with 3-byte, multi-byte and 70 000-byte prefixes; oracle: located name+line inside the named source for the error and every located cause, kind/detail/name unchanged and line shifted by exactly N, ranges in bounds, on char boundaries, equal to the named template's source and shifted by the inserted byte count, all five formatting forms succeed; residue: every failing case is re-run on a fresh OS thread after each of 12 prior templates (one per statement kind, three failing to compile half way) was compiled on that thread with its construct on the failing line, and the full location (every chain entry, lines, ranges) must equal the one from a fresh thread without a prior. distinct non-trivial = distinct failing template sets".into(),
             exhaustive: true,
             bound: json!({"vertical": [1, 2, 17, 65533], "horizontal": [3, 5, 70000]}),
             assumptions: vec!["Strict undefined mode so that undefined reads are errors".into(), "cases that compile and render successfully are skipped (counted in the outcome histogram)".into()],
